@@ -982,8 +982,8 @@ impl ReCompiler {
                             sb.push(*ch);
                         }
                         _ => {
-                            // TODO: wrong whitespace
-                            if nesting == 0 && ch.is_ascii_whitespace() {
+                            // XSD whitespace only: tab, newline, carriage return, space
+                            if nesting == 0 && matches!(ch, '\t' | '\n' | '\r' | ' ') {
                                 // no action
                             } else {
                                 escaped = false;
